@@ -84,6 +84,19 @@ class SSHAllowedSignersEntry(OptionsParser):
         'valid-before': _set_time
     }
 
+    _keywords = ('cert-authority', 'namespaces', 'valid-after',
+                 'valid-before')
+
+    def _add_option(self, option: str) -> None:
+        """Add an option value, matching option names case-insensitively"""
+
+        name, sep, value = option.partition('=')
+
+        if name.lower() in self._keywords:
+            name = name.lower()
+
+        super()._add_option(name + sep + value)
+
     def match_options(self, principal: str, namespace: str):
         """Match options in entry"""
 
